@@ -177,6 +177,18 @@ theorem hop_reads_head (cfg : Cfg) (st : St) (s : Sess) (h : HOp) (d : Data)
   | regenerate => simp only [hop]; split <;> exact hp
   | delete => simp only [hop]; split <;> exact hp
   | expire => exact hp
+  | acc a =>
+    simp only [hop]; split
+    · exact hp
+    · rename_i s' hs'
+      have e3 := (ensureLoaded_spec hs').2.2.1
+      show (s'.reads ++ [(a.apply s'.data).2]).head? = some d
+      rw [e3]
+      cases hr : s.reads with
+      | nil => rw [hr] at hp; cases hp
+      | cons a t => rw [hr] at hp; simpa using hp
+  | len => exact hp
+  | raise => exact hp
 
 /-- **Persistence, any handler.**  While the record under `i` is unexpired, a request presenting `i`
     whose handler starts by reading sees exactly the saved data first — whatever the handler does
